@@ -95,7 +95,7 @@ def readRows (hp : Bool) (rs : List (List Word)) : Option RView :=
           if cnt < 0 then none else
           let eod : Int := if hp ∧ step % 2 = 1 then 24 else 2400
           let stop := if hp then timeadd eod (timeadd eod fin step) 0 else timeadd eod (fin.1, fin.2 + step) 0
-          match trange eod step stop (rs.length + 1) (timeadd eod start 0) with
+          match trange eod step stop (rs.length + 1 + cnt.toNat) (timeadd eod start 0) with
           | none => none
           | some ts =>
             if (ts.length : Int) > cnt then none else
@@ -152,7 +152,7 @@ def readTempRows (rs : List (List Word)) : Option RView :=
         let T := rs.length / m
         let eod : Int := if step % 2 = 1 then 24 else 2400
         let stop := timeadd eod (timeadd eod (recDT rl) step) 0
-        match trange eod step stop (rs.length + 1) (timeadd eod start 0) with
+        match trange eod step stop (rs.length + 1 + cnt.toNat) (timeadd eod start 0) with
         | none => none
         | some ts =>
           let zero := List.replicate (r0.length - 4) (0 : Word)
